@@ -11,7 +11,8 @@
                                     `_get_known_urls` cross-tier filter)
                     Trackers       (tiers are URLs objects; `_tier_changed` empty-tier removal;
                                     `tier not in self._tiers` = frozenset equality; `replace` builds
-                                    `Trackers(tiers)` before it clears — /repo 41bec34)
+                                    `Trackers(tiers)` before it clears — /repo 41bec34; `reverse`
+                                    reverses `_tiers` in place — /repo f86a28a)
     torf/_torrent.py  trackers/webseeds/httpseeds getters (rebuild the list object from the
                     metainfo on every access), setters, `_trackers_changed`, `_webseeds_changed`,
                     `_httpseeds_changed` (write-back).
@@ -404,24 +405,6 @@ def tiersSetItem (T : Tiers) (i : Int) (v : TierVal) : Option Written × Outcome
   | .error e => (none, .error e)
   | .ok T' => (some (wOf T'), .ok)
 
-/-- `Trackers.reverse()` — NOT overridden: the inherited `MutableSequence.reverse`,
-    `n = len(self); for i in range(n//2): self[i], self[n-i-1] = self[n-i-1], self[i]`:
-    both reads first (IndexError if out of range), then `self[i] = x`, then `self[n-i-1] = y`, each
-    through `Trackers.__setitem__` with an integer index (callback after each).  `last` = the
-    object handed to the last callback call. -/
-def tiersReverseLoop (n : Nat) : List Nat → Tiers → Option Tiers → Option Tiers × Outcome
-  | [], _, last => (last, .ok)
-  | i :: is, T, last =>
-    match T[n - i - 1]?, T[i]? with
-    | some x, some y =>
-      match tiersSetItemT isUrl T (i : Int) (.list x) with
-      | .error e => (last, .error e)
-      | .ok T1 =>
-        match tiersSetItemT isUrl T1 ((n - i - 1 : Nat) : Int) (.list y) with
-        | .error e => (some T1, .error e)
-        | .ok T2 => tiersReverseLoop n is T2 (some T2)
-    | _, _ => (last, .error .index)
-
 def flatVals (vs : List TierVal) : List String :=
   vs.flatMap fun | .str s => [s] | .list us => us
 
@@ -542,8 +525,10 @@ def tiersOp (T : Tiers) : TOp → Option Written × Outcome
   | .setItem i v => tiersSetItem isUrl T i v
   | .setSlice a b vs => tiersSetSlice isUrl T a b vs
   | .reverse =>
-    match tiersReverseLoop isUrl T.length (List.range (T.length / 2)) T none with
-    | (last, out) => (last.map wOf, out)
+    -- `Trackers.reverse` (/repo f86a28a): `self._tiers.reverse()`, then the callback.  (Before, the
+    -- inherited `MutableSequence.reverse` swapped through `Trackers.__setitem__`, which assigned
+    -- nothing — every URL of a stored tier is known — so `reverse()` silently did nothing.)
+    (some (wOf T.reverse), .ok)
   | .tier ti op => tierOp isUrl T ti op
 
 def applyWritten (s : MI) : Option Written → MI
